@@ -425,6 +425,8 @@ func classify(msg string) string {
 	rules := []rule{
 		{"c08basic: ", "err:basic"},
 		{"c08: ", "err:script"},
+		{"type check failed", "err:typecheck"},
+		{"missing method .seal", "err:seal"},
 		{"use NewReadonlyBanker", "err:bt-readonly"},
 		{"invalid banker type", "err:bt-invalid"},
 		{"invalid BankerType", "err:bt-invalid"},
@@ -547,6 +549,9 @@ func (e *env) observe(f func() error) observed {
 				msg = msg[:i]
 			}
 			fmt.Fprintf(os.Stderr, "RAW: %s\n", strings.ReplaceAll(msg, "\n", " | "))
+			if os.Getenv("VERIF_RAW") == "2" {
+				fmt.Fprintf(os.Stderr, "RAW+: %.1500s\n", strings.ReplaceAll(fmt.Sprintf("%+v", err), "\n", " | "))
+			}
 		}
 		status := classify(err.Error())
 		o.status = status
@@ -659,6 +664,127 @@ func opPrice(n string) (string, string) {
 	return "ok", "-"
 }
 
+// attack packages that must not even deploy: the banker's natives and its concrete
+// type are unexported, so "direct native calls" and "forged banker values" are
+// rejected by the type checker of MsgAddPackage before any coin moves.
+var attackSources = map[string]string{
+	"native": `package %s
+
+import "chain/banker"
+
+func Steal(cur realm, from, to string) {
+	banker.bankerSendCoins(2, from, to, []string{"ugnot"}, []int64{1})
+}
+`,
+	"xnative": `package %s
+
+import "chain/banker"
+
+func Steal(cur realm, from, to string) {
+	banker.X_bankerSendCoins(nil, 2, from, to, []string{"ugnot"}, []int64{1})
+}
+`,
+	"forge": `package %s
+
+import (
+	"chain"
+	"chain/banker"
+)
+
+func Steal(cur realm, from, to address) {
+	b := banker.banker{bt: banker.BankerTypeRealmSend, pkgAddr: from}
+	b.SendCoins(from, to, chain.Coins{{"ugnot", 1}})
+}
+`,
+	"forgeconv": `package %s
+
+import (
+	"chain"
+	"chain/banker"
+)
+
+type fake struct {
+	bt      banker.BankerType
+	pkgAddr address
+	pkgPath string
+}
+
+func Steal(cur realm, from, to address) {
+	var b banker.Banker = fake{bt: banker.BankerTypeRealmSend, pkgAddr: from}
+	b.SendCoins(from, to, chain.Coins{{"ugnot", 1}})
+}
+`,
+	"fieldset": `package %s
+
+import (
+	"chain"
+	"chain/banker"
+)
+
+func Steal(cur realm, from, to address) {
+	b := banker.NewBanker(banker.BankerTypeRealmSend, cur)
+	b.pkgAddr = from
+	b.SendCoins(from, to, chain.Coins{{"ugnot", 1}})
+}
+`,
+	"realmforge": `package %s
+
+import (
+	"chain"
+	"chain/banker"
+)
+
+type myrealm struct{ a address }
+
+func (m myrealm) Address() address        { return m.a }
+func (m myrealm) PkgPath() string         { return "gno.land/r/c08/ra" }
+func (m myrealm) IsCurrent() bool         { return true }
+func (m myrealm) Previous() realm         { return nil }
+func (m myrealm) IsCode() bool            { return true }
+func (m myrealm) IsUser() bool            { return false }
+func (m myrealm) IsUserCall() bool        { return false }
+func (m myrealm) IsUserRun() bool         { return false }
+func (m myrealm) IsEphemeral() bool       { return false }
+func (m myrealm) Sub(s string) realm      { return m }
+func (m myrealm) Subpath() string         { return "" }
+func (m myrealm) String() string          { return "forged" }
+
+func Steal(cur realm, from, to address) {
+	b := banker.NewBanker(banker.BankerTypeRealmSend, myrealm{from})
+	b.SendCoins(from, to, chain.Coins{{"ugnot", 1}})
+}
+`,
+}
+
+var attackSeq int
+
+func opDeploy(signer, kind, send string) (string, string) {
+	e := getEnv()
+	src, ok := attackSources[kind]
+	sc, ok2 := parseCoins(send)
+	if !validUser(signer) || !ok || !ok2 {
+		return "err:badop", "-"
+	}
+	attackSeq++
+	name := fmt.Sprintf("atk%s%d", kind, attackSeq)
+	path := realmPrefix + name
+	files := []*std.MemFile{
+		{Name: "a.gno", Body: fmt.Sprintf(src, name)},
+		{Name: "gnomod.toml", Body: gno.GenGnoModLatest(path)},
+	}
+	o := e.observe(func() error {
+		return e.tx(func(ctx sdk.Context) error {
+			msg := vm.NewMsgAddPackage(e.sym2addr[signer], path, files)
+			msg.Send = sc
+			if err := msg.ValidateBasic(); err != nil {
+				return fmt.Errorf("c08basic: %w", err)
+			}
+			return e.vmk.AddPackage(ctx, msg)
+		})
+	})
+	return o.String(), oracleTx(o, "deploy", signer, "", sc, nil)
+}
+
 func opRestrict(flag string) (string, string) {
 	e := getEnv()
 	switch flag {
@@ -697,6 +823,10 @@ func exec(toks []string) (string, string) {
 	case "restrict":
 		if len(toks) == 2 {
 			return opRestrict(toks[1])
+		}
+	case "deploy":
+		if len(toks) == 4 {
+			return opDeploy(toks[1], toks[2], toks[3])
 		}
 	}
 	return bad()
